@@ -326,6 +326,12 @@ func (r *rng) rejectingProgram() *SX {
 		"(mapvals (i 0 9) 0 5 (modf 3))",
 		"(distinct (i 0 7) 1 5 (modf 4))",
 		"(custom (draw c (i 0 9)) (if (mod c 3 0) (skip)) (ret c))",
+		// a Custom attempt abandoned because a generator inside it gave up: the discarded try group
+		// encloses groups that were never finished
+		"(custom (draw c (filter (i 0 3) (ge 3))) (ret c))",
+		"(custom (draw a (i 0 3)) (draw c (filter (i 0 5) (ge 5))) (ret c))",
+		"(distinct (custom (draw c (filter (i 0 3) (ge 2))) (ret c)) 0 4 (id))",
+		"(custom (draw c (distinct (i 0 1) 2 3 (id))) (ret c))",
 	}
 	var out []*SX
 	n := 1 + r.intn(3)
